@@ -259,7 +259,7 @@ def execute(scenario: dict) -> dict:
             elif d["title"] in sc_eff.get("disabled", []):
                 if qs:
                     bad = ("output-disabled-rule-emits-nothing", "queries:%d" % len(qs))
-            elif len(qs) > n_cond or (len(qs) != n_cond and not drops):
+            elif len(qs) > n_cond or (len(qs) != n_cond and not drops and not _has_selector(cond)):
                 bad = ("one-query-per-condition", "queries:%d-conditions:%d" % (len(qs), n_cond))
             if bad and violation is None:
                 violation = {"oracle": bad[0], "kind": bad[1], "got": a, "want": {"rule": d["title"], "conditions": n_cond}}
@@ -322,6 +322,15 @@ def execute(scenario: dict) -> dict:
     sig = core.digest([classes, sorted(faults), sc["cls"], sc.get("pipeline") is not None, bool(sc.get("filters"))])
     return {"violation": violation, "log": log, "faults": faults, "probes": probes,
             "steps": len(classes), "signature": sig, "nontrivial": n_fail >= 1 and n_ok >= 1}
+
+
+def _has_selector(cond: Any) -> bool:
+    """A selector that matches no detection makes (part of) a condition empty; pySigma drops empty parts
+    by design (the same mechanism serves drop_detection_item) and an entirely empty condition yields no
+    query.  The statement's 'one query per condition' is therefore asserted as equality only for
+    conditions without selectors and pipelines without drop_detection_item, else as an upper bound."""
+    conds = cond if isinstance(cond, list) else [cond]
+    return any(" of " in (" " + c) for c in conds)
 
 
 def _natural_fault(faults: dict, msg: str) -> None:
